@@ -5,6 +5,7 @@
 #include <cstdio>
 #include <algorithm>
 #include <functional>
+#include <memory>
 
 using plan::Op;
 using plan::Plan;
@@ -288,6 +289,35 @@ static void account_memory(Ctx &c, const Op &op, const sim::OpStats &st, const c
             props.push_back("C12"); // only the team execution goes out of bounds: its memory effects depend on team / schedule
         c.violation(uaf ? "use-after-free" : "out-of-bounds", props, op, std::string("poison map of the simulated heap (") + which + ")", s);
     }
+}
+
+// An application parallel region around library calls: every member of a team of H calls f(h) (h = its index).
+// Opened through the simulated runtime like any region of the code under test, so the members are scheduled,
+// preempted and race-checked the same way; parallel regions inside the library calls are then nested (a team
+// of one each, max-active-levels = 1), and orphaned work-sharing binds to this team, as in a real application.
+extern "C" void GOMP_parallel(void (*fn)(void *), void *data, unsigned num_threads, unsigned flags);
+extern "C" int omp_get_thread_num(void);
+struct HostCall
+{
+    std::function<void(int)> f;
+    std::vector<char> ran;
+};
+static void host_trampoline(void *p)
+{
+    HostCall *hc = (HostCall *)p;
+    int h = omp_get_thread_num();
+    if (h >= 0 && h < (int)hc->ran.size())
+    {
+        hc->ran[h] = 1;
+        hc->f(h);
+    }
+}
+// returns which members really ran (the runtime may deliver a smaller team)
+static std::vector<char> host_region(int H, std::function<void(int)> f)
+{
+    HostCall hc{f, std::vector<char>((size_t)H, 0)};
+    GOMP_parallel(host_trampoline, &hc, (unsigned)H, 0);
+    return hc.ran;
 }
 
 static void account_main(Ctx &c, const Op &op, const sim::OpStats &st, uint64_t min_trip, const sim::OpStats *ref = nullptr)
@@ -831,17 +861,51 @@ static void exec_merkle(Ctx &c, const Op &op)
         tsize = std::max(tsize, want_size); // keep the library inside its own buffer for the rest
     }
     auto run = [&](const sim::OpSim &cfg, bool dirty, uint64_t gseed, bool is_main, sim::OpStats &st, std::vector<uint64_t> &root) {
-            HBuf I(nelem, "input");
-        I.load(in, nelem);
-        HBuf T(tsize, "tree");
-        T.fill(dirty, derive_seed(gseed, 7));
-        st = simulate(cfg, [&] { shim::merkle(op.variant, T.p(), I.p(), op.cols, op.rows, op.batch, op.nthreads, op.dim); });
+        const int H = (is_main && op.host_team > 1) ? op.host_team : 1;
+        // fault adjacent_caller_buffers: input and tree are consecutive parts of one allocation
+        HBuf AREA(is_main && op.adjacent_bufs && H == 1 ? nelem + tsize : 0, "caller-area");
+        if (is_main && op.adjacent_bufs && H == 1)
+            g_carve = Carve{AREA.p(), nelem + tsize, 0, false, true};
+        std::vector<std::unique_ptr<HBuf>> Is, Ts;
+        for (int h = 0; h < H; h++)
+        {
+            Is.emplace_back(new HBuf(nelem, h ? "input(member)" : "input"));
+            Is.back()->load(in, nelem);
+            Ts.emplace_back(new HBuf(tsize, h ? "tree(member)" : "tree"));
+            Ts.back()->fill(dirty, derive_seed(gseed, 7 + (uint64_t)h));
+        }
+        g_carve.active = false;
+        HBuf &I = *Is[0], &T = *Ts[0];
+        std::vector<char> ran(1, 1);
+        if (H == 1)
+            st = simulate(cfg, [&] { shim::merkle(op.variant, T.p(), I.p(), op.cols, op.rows, op.batch, op.nthreads, op.dim); });
+        else
+            st = simulate(cfg, [&] {
+                ran = host_region(H, [&](int h) { shim::merkle(op.variant, Ts[h]->p(), Is[h]->p(), op.cols, op.rows, op.batch, op.nthreads, op.dim); });
+            });
         root.assign(4, 0);
         shim::tree_root(root.data(), T.p(), tsize);
-        check_canaries(c, op, {&I, &T}, is_main);
+        check_canaries(c, op, {&I, &T, &AREA}, is_main);
         if (I.vec() != in && is_main)
             c.violation("source-modified", {"C18", "C08"}, op, "input matrix unchanged", "input changed");
-        return T.vec();
+        std::vector<uint64_t> t0 = T.vec();
+        if (H > 1)
+        {
+            c.res.probes.insert("called_from_application_region");
+            c.res.faults["nested_call"]++;
+            if (!ran[0])
+                for (int h = 1; h < H; h++)
+                    if (ran[h])
+                    {
+                        t0 = Ts[h]->vec();
+                        break;
+                    }
+            for (int h = 0; h < H; h++)
+                if (ran[h] && first_diff_field(Ts[h]->vec(), t0) >= 0)
+                    c.violation("nested-call-mismatch", {"C08", "C12"}, op, "every member of an application region that builds its own tree from the same input gets the same tree",
+                                "member " + std::to_string(h) + " differs");
+        }
+        return t0;
     };
     sim::OpStats rst, mst;
     std::vector<uint64_t> rroot, mroot, ref, out;
@@ -963,9 +1027,11 @@ static void exec_xcheck(Ctx &c, const Op &op)
             int v = fam ? batch_v[k] : plain_v[k];
             if ((v == shim::MK_AVX512 || v == shim::MK_BATCH_AVX512) && !shim::built_with_avx512())
                 continue;
+            g_misalign = op.misaligned_bufs;
             HBuf I(nelem, "input");
             I.load(in, nelem);
             HBuf T(tsize, "tree");
+            g_misalign = false;
             T.fill_garbage(derive_seed(op.garbage_seed, 7 + (uint64_t)v));
             sim::OpSim cfg = sim_cfg_of(op);
             cfg.detect_races = false;
@@ -1003,28 +1069,64 @@ static void exec_copy(Ctx &c, const Op &op)
     RunResult &r = c.res;
     bool zero = op.kind == plan::K_PARSETZERO;
     std::vector<uint64_t> in = gen_input(plan::IN_RAND64, op.size, 1, op.input_seed);
+    const int H = op.host_team > 1 ? op.host_team : 1;
     g_misalign = op.misaligned_bufs;
-    HBuf S(zero ? 0 : op.size, "src");
-    if (!zero)
-        S.load(in, op.size);
-    HBuf D(op.size, "dst");
-    D.fill_garbage(derive_seed(op.garbage_seed, 11) | 1);
+    std::vector<std::unique_ptr<HBuf>> Ss, Ds;
+    for (int h = 0; h < H; h++)
+    {
+        Ss.emplace_back(new HBuf(zero ? 0 : op.size, h ? "src(member)" : "src"));
+        if (!zero)
+            Ss.back()->load(in, op.size);
+        Ds.emplace_back(new HBuf(op.size, h ? "dst(member)" : "dst"));
+        Ds.back()->fill_garbage(derive_seed(op.garbage_seed, 11 + (uint64_t)h) | 1);
+        // make sure "garbage" never equals the expected result by accident
+        for (uint64_t i = 0; i < op.size; i++)
+            if (Ds.back()->p()[i] == (zero ? 0 : in[i]))
+                Ds.back()->p()[i] ^= 0x5555;
+    }
     g_misalign = false;
-    // make sure "garbage" never equals the expected result by accident
-    for (uint64_t i = 0; i < op.size; i++)
-        if (D.p()[i] == (zero ? 0 : in[i]))
-            D.p()[i] ^= 0x5555;
+    HBuf &S = *Ss[0], &D = *Ds[0];
     sim::OpSim mc = sim_cfg_of(op);
-    mc.step_limit = 50ull * op.size + 128ull * 4096 * 4 + 1000000;
+    mc.step_limit = 50ull * op.size * (uint64_t)H + 128ull * 4096 * 4 + 1000000;
     mc.step_estimate = 2 * op.size / 4 + 16;
-    sim::IcvState icv = sim::icv_save();
-    (void)icv;
+    std::vector<char> ran(1, 1);
     sim::OpStats st = simulate(mc, [&] {
-        if (zero)
-            shim::parsetzero(D.p(), op.size, op.threads);
+        auto call = [&](int h) {
+            if (zero)
+                shim::parsetzero(Ds[h]->p(), op.size, op.threads);
+            else
+                shim::parcpy(Ds[h]->p(), Ss[h]->p(), op.size, op.threads);
+        };
+        if (H == 1)
+            call(0);
         else
-            shim::parcpy(D.p(), S.p(), op.size, op.threads);
+            ran = host_region(H, call);
     });
+    if (H > 1)
+    {
+        r.probes.insert("called_from_application_region");
+        r.faults["nested_call"]++;
+        std::vector<uint64_t> expect_h = zero ? std::vector<uint64_t>(op.size, 0) : in;
+        for (int h = 1; h < H; h++)
+        {
+            if (!ran[h])
+                continue;
+            long dh = first_diff_bits(Ds[h]->vec(), expect_h);
+            std::string what;
+            if (dh >= 0)
+                c.violation("oracle-mismatch", {"C17", "C12"}, op, zero ? "zero reference model (call made by a member of an application region)" : "copy reference model (call made by a member of an application region)",
+                            "member " + std::to_string(h) + ": dst[" + std::to_string(dh) + "] wrong");
+            if (!Ds[h]->canary_ok(what) || !Ss[h]->canary_ok(what))
+                c.violation("stray-write", {"C17", "C18"}, op, "nothing outside the size elements is written", what);
+        }
+        if (!ran[0])
+        {
+            // member 0 was not delivered (a team of fewer members): nothing was asked of its buffers
+            account_main(c, op, st, 1, nullptr);
+            c.last_out_digest = 0;
+            return;
+        }
+    }
     int eff = op.threads < 1 ? 1 : op.threads;
     uint64_t comp = (op.size + (uint64_t)eff - 1) / (uint64_t)eff;
     uint64_t trip = comp ? (op.size + comp - 1) / comp : 0;
